@@ -5,7 +5,7 @@ import itertools
 from ..index import AnalysisError, attr_chain, norm, own_nodes
 from ..query import calls_in, call_name
 from ..condeval import ev, Unknown
-from .common import TLSCONN, nodes_with_call, consumes_of, dead_edge_labels, must_pass
+from .common import borrowed, TLSCONN, nodes_with_call, consumes_of, dead_edge_labels, must_pass
 
 EXPLANATION = (
     "TAINT: in RSAKey.decrypt everything derived from the raw RSA plaintext is tainted; no branch "
@@ -366,4 +366,5 @@ RULES = [
     ("C11.HEADER", "quick", rule_header),
     ("C11.NO-SIGNAL", "quick", rule_no_signal),
     ("C11.NO-HANDLER", "quick", rule_no_handler),
+    ("C11.LOCKSET-RSA", "quick", borrowed("c18", "rule_lockset", "C18.LOCKSET", "C11.LOCKSET", only="utils.python_rsakey:Python_RSAKey")),
 ]
